@@ -25,10 +25,10 @@ def c17_check(text, ns):
                 bad.append("exception: %s(%r) raised %s" % (parse.__qualname__, text if len(text) < 60 else text[:57] + "...", type(e).__name__))
         a, b = res
         def eqq(x, y):
-            try:
-                return x == y or x != x
-            except OverflowError:
-                return repr(x) == repr(y)
+            # parsed quantities are compared field by field: Quantity.__eq__ expands prefixes (10**(3*10**400) for "km^99..9"), which is not parsing
+            if isinstance(x, measured.Quantity) and isinstance(y, measured.Quantity):
+                return x.unit is y.unit and type(x.magnitude) is type(y.magnitude) and (x.magnitude == y.magnitude or x.magnitude != x.magnitude)
+            return x == y
         same = a[0] == b[0] and (a[1] is b[1] if a[0] == "ok" and kind is measured.Unit else eqq(a[1], b[1]) if a[0] == "ok" else a[1] == b[1])
         if not same: bad.append("nondeterministic: %r parsed twice gives %r and %r" % (text, a, b))
         outs.append(a)
@@ -59,6 +59,8 @@ def run(tier, seed):
         t = sep.join(terms)
         if rng.random() < 0.3:
             t += rng.choice(["/", " / "]) + rng.choice(syms) + rng.choice(["", "^2", "²"])
+        if rng.random() < 0.04:
+            t += rng.choice([" ", "⋅", "*"]) + rng.choice(["KiB", "kB", "km", "Mib", "ms"]) + "^" + rng.choice(["", "-"]) + "9" * rng.choice([20, 310, 400])
         if rng.random() < 0.5:
             t = rng.choice(["5", "-3", "2.5", "1e3", "+7", "1e400", "-0.0", ".5", "5.", "1E-3", "007"]) + rng.choice([" ", "", "  "]) + t
         return t
@@ -81,7 +83,10 @@ def run(tier, seed):
         return "".join(t)
 
     special = ["", " ", "m^" + "9" * 5000, "m" + "⁹" * 5000, "1" * 5000 + " m", "m^99999999", "m" * 3000, "m^-0", "1 1", "1", "°", "(", "m/", "/m", "m//s", "m^", "^2", "5", "5 ", "nan m", "inf m",
-               "1e999 m", "-1e999 m", "0x10 m", "１ m", "m²", "m⁲", "m ^2", "m^ 2", "m⁻", "⁻¹", "m²³", "m^2^3", "m²^3", "\x00", "m\x00", "a" * 100000]
+               "1e999 m", "-1e999 m", "0x10 m", "１ m", "m²", "m⁲", "m ^2", "m^ 2", "m⁻", "⁻¹", "m²³", "m^2^3", "m²^3", "\x00", "m\x00", "a" * 100000,
+               # exponents beyond the float range on units whose prefixes have different bases (rescaled through float logarithms)
+               "KiB^" + "9" * 400 + " km", "kB^" + "9" * 400, "km/KiB^" + "9" * 400, "5 kB^" + "9" * 400, "kB" + "⁹" * 400, "km^" + "9" * 400 + " KiB",
+               "KiB^-" + "9" * 400 + "/km", "km^" + "9" * 400, "Kib^999 km", "MiB^" + "1" + "0" * 310 + "⋅ms"]
     cases = list(special)
     while len(cases) < n:
         r = rng.random()
